@@ -3,6 +3,7 @@ package val
 import (
 	"google.golang.org/protobuf/encoding/protowire"
 	"google.golang.org/protobuf/reflect/protoreflect"
+	"math"
 )
 
 // A rec is one top-level record of a message encoding.
@@ -55,6 +56,59 @@ func (g *Gen) tag(b []byte, num protowire.Number, typ protowire.Type) []byte {
 		return padVarint(b, v, protowire.SizeVarint(v)+1+g.R.Intn(2))
 	}
 	return protowire.AppendVarint(b, v)
+}
+
+// widen returns another varint value that a conforming decoder must read as the same field
+// value: 32-bit kinds keep only the low 32 bits of the varint (the bits above are arbitrary: a
+// peer that declared the field 64 bits wide, a sign-extended negative), a bool is any non-zero.
+func (g *Gen) widen(k protoreflect.Kind, v uint64) uint64 {
+	switch k {
+	case protoreflect.Int32Kind, protoreflect.Uint32Kind, protoreflect.Sint32Kind, protoreflect.EnumKind:
+		hi := g.R.Uint64() << 32
+		switch g.R.Intn(4) {
+		case 0:
+			hi = 1 << 32
+		case 1:
+			hi = uint64(math.MaxUint32) << 32
+		}
+		return (v & math.MaxUint32) | hi
+	case protoreflect.BoolKind:
+		if v != 0 {
+			return []uint64{2, 128, 1 << 32, 1 << 63, math.MaxUint64, 256}[g.R.Intn(6)]
+		}
+	}
+	return v
+}
+
+// entryUnknown is a record of a number that is neither key nor value, of any wire type, its tag
+// often padded.
+func (g *Gen) entryUnknown() []byte {
+	num := protowire.Number(3 + g.R.Intn(40))
+	typ := []protowire.Type{protowire.VarintType, protowire.Fixed32Type, protowire.Fixed64Type, protowire.BytesType, protowire.StartGroupType}[g.R.Intn(5)]
+	var u []byte
+	tv := protowire.EncodeTag(num, typ)
+	if g.R.Intn(100) < 35 {
+		u = padVarint(u, tv, protowire.SizeVarint(tv)+1+g.R.Intn(3))
+	} else {
+		u = protowire.AppendVarint(u, tv)
+	}
+	switch typ {
+	case protowire.VarintType:
+		u = protowire.AppendVarint(u, g.u64())
+	case protowire.Fixed32Type:
+		u = protowire.AppendFixed32(u, uint32(g.R.Uint64()))
+	case protowire.Fixed64Type:
+		u = protowire.AppendFixed64(u, g.R.Uint64())
+	case protowire.BytesType:
+		u = protowire.AppendBytes(u, make([]byte, g.R.Intn(4)))
+	case protowire.StartGroupType:
+		if g.R.Intn(2) == 0 {
+			u = protowire.AppendTag(u, 1, protowire.VarintType)
+			u = protowire.AppendVarint(u, g.u64())
+		}
+		u = protowire.AppendVarint(u, protowire.EncodeTag(num, protowire.EndGroupType))
+	}
+	return u
 }
 
 func (g *Gen) bytesRec(num protowire.Number, payload []byte) rec {
@@ -126,21 +180,27 @@ func concat(bs [][]byte) []byte {
 func (g *Gen) scalarBytes(fd protoreflect.FieldDescriptor) []byte {
 	v := g.Scalar(fd)
 	var b []byte
+	w := func(x uint64) uint64 {
+		if g.R.Intn(5) == 0 {
+			return g.widen(fd.Kind(), x)
+		}
+		return x
+	}
 	switch fd.Kind() {
 	case protoreflect.BoolKind:
 		x := uint64(0)
 		if v.Bool() {
 			x = 1
 		}
-		return protowire.AppendVarint(b, x)
+		return protowire.AppendVarint(b, w(x))
 	case protoreflect.Int32Kind, protoreflect.Int64Kind:
-		return protowire.AppendVarint(b, uint64(v.Int()))
+		return protowire.AppendVarint(b, w(uint64(v.Int())))
 	case protoreflect.EnumKind:
-		return protowire.AppendVarint(b, uint64(int64(v.Enum())))
+		return protowire.AppendVarint(b, w(uint64(int64(v.Enum()))))
 	case protoreflect.Sint32Kind, protoreflect.Sint64Kind:
-		return protowire.AppendVarint(b, protowire.EncodeZigZag(v.Int()))
+		return protowire.AppendVarint(b, w(protowire.EncodeZigZag(v.Int())))
 	case protoreflect.Uint32Kind, protoreflect.Uint64Kind:
-		return protowire.AppendVarint(b, v.Uint())
+		return protowire.AppendVarint(b, w(v.Uint()))
 	case protoreflect.Sfixed32Kind:
 		return protowire.AppendFixed32(b, uint32(v.Int()))
 	case protoreflect.Fixed32Kind:
@@ -214,10 +274,7 @@ func (g *Gen) xformEntry(fd protoreflect.FieldDescriptor, payload []byte, depth 
 		}
 	case 5: // unknown inner record (skipped)
 		add(key)
-		var b []byte
-		b = protowire.AppendTag(b, protowire.Number(3+g.R.Intn(5)), protowire.VarintType)
-		b = protowire.AppendVarint(b, g.u64())
-		out = append(out, b)
+		out = append(out, g.entryUnknown())
 		add(val)
 	case 6: // empty entry
 	default:
@@ -292,9 +349,12 @@ func (g *Gen) Xform(md protoreflect.MessageDescriptor, b []byte, depth int) []by
 				var run []byte
 				for _, e := range els {
 					v, _ := protowire.ConsumeVarint(e)
-					if g.R.Intn(2) == 0 {
+					switch g.R.Intn(3) {
+					case 0:
 						run = padVarint(run, v, protowire.SizeVarint(v)+1+g.R.Intn(2))
-					} else {
+					case 1:
+						run = protowire.AppendVarint(run, g.widen(fd.Kind(), v))
+					default:
 						run = append(run, e...)
 					}
 				}
@@ -311,7 +371,12 @@ func (g *Gen) Xform(md protoreflect.MessageDescriptor, b []byte, depth int) []by
 				for _, e := range els {
 					var x []byte
 					x = g.tag(x, r.num, elemWireType(fd.Kind()))
-					x = append(x, e...)
+					if elemWireType(fd.Kind()) == protowire.VarintType && g.R.Intn(4) == 0 {
+						v, _ := protowire.ConsumeVarint(e)
+						x = protowire.AppendVarint(x, g.widen(fd.Kind(), v))
+					} else {
+						x = append(x, e...)
+					}
 					out = append(out, rec{num: r.num, typ: elemWireType(fd.Kind()), raw: x})
 				}
 			default: // an empty run in front
@@ -329,9 +394,12 @@ func (g *Gen) Xform(md protoreflect.MessageDescriptor, b []byte, depth int) []by
 			v, _ := protowire.ConsumeVarint(r.raw[n:])
 			var x []byte
 			x = g.tag(x, r.num, r.typ)
-			if g.R.Intn(100) < 25 {
+			switch c := g.R.Intn(100); {
+			case c < 25:
 				x = padVarint(x, v, protowire.SizeVarint(v)+1+g.R.Intn(3))
-			} else {
+			case c < 50:
+				x = protowire.AppendVarint(x, g.widen(fd.Kind(), v))
+			default:
 				x = protowire.AppendVarint(x, v)
 			}
 			out = append(out, rec{num: r.num, typ: r.typ, raw: x})
@@ -400,9 +468,7 @@ func (g *Gen) InjectUnknown(md protoreflect.MessageDescriptor, b []byte, depth i
 		if fd != nil && fd.IsMap() && r.typ == protowire.BytesType && g.R.Intn(100) < 30 {
 			// a record that is neither key nor value INSIDE the entry: it belongs to the synthetic
 			// entry message, every decoder drops it -- it must not surface in the parent's unknown set
-			var u []byte
-			u = protowire.AppendTag(u, protowire.Number(3+g.R.Intn(40)), protowire.VarintType)
-			u = protowire.AppendVarint(u, g.u64())
+			u := g.entryUnknown()
 			pos := []int{0, len(r.val)}[g.R.Intn(2)]
 			entry := append(append(append([]byte(nil), r.val[:pos]...), u...), r.val[pos:]...)
 			out = append(out, g.bytesRec(r.num, entry).raw)
